@@ -33,8 +33,8 @@ from ..core import pool_map
 
 MODULE = "comm/BlockDiag.tla"
 DEVS = ["RejectedMetricCommitted", "NaiveKeepsCallerDict", "ReturnedNsAliasesChannel", "ArgsNotResetOnMetricChange",
-        "StaleStreamCounts", "SolveStoresDecision", "PowerCachedAtConstruction", "AbsoluteRankTolerance"]
-ALL_ACTS = {"Construct", "CalcFilterUserK", "SetAttr", "SetMetric", "EditDict", "NewChannel", "SolveBD", "SolveExt", "CalcWhitening", "CalcReceiveFilter", "Scribble"}
+        "StaleStreamCounts", "SolveStoresDecision", "PowerCachedAtConstruction", "AbsoluteRankTolerance", "MetricArgsSharedByClass"]
+ALL_ACTS = {"Construct", "Bystander", "CalcFilterUserK", "SetAttr", "SetMetric", "EditDict", "NewChannel", "SolveBD", "SolveExt", "CalcWhitening", "CalcReceiveFilter", "Scribble"}
 INVS = ["TypeOK", "MetricArgsConsistent", "ChannelIntact", "NoSharedDict", "RequiredAfterSolve", "ResultObeysCurrentAttributes", "RankIsScaleFree"]
 PROPS = ["RejectedLeavesUnchanged", "OnlySetMetricChangesMetric", "SolveUsesCurrentMetric", "SolveLeavesConfig", "OnlySettersChangeObject",
          "SetAttrChangesOnlyThat"]
@@ -215,7 +215,7 @@ def eval_bd(req, H, K, N, p, newH, Ms, W=None, stats=None, nv=None):
     return bad
 
 
-def eval_ext(req, M, K, N, rE, p, lastrec, Ms, Wk, Ns, stats=None):
+def eval_ext(req, M, K, N, rE, p, lastrec, Ms, Wk, Ns, stats=None, pe=None, chnv=None):
     """(Ms_all, Wk_all, Ns_all) of WhiteningBD / EnhancedBD.block_diagonalize_no_waterfilling"""
     bad = []
     KN = K * N
@@ -272,7 +272,15 @@ def eval_ext(req, M, K, N, rE, p, lastrec, Ms, Wk, Ns, stats=None):
                 stats["extint_users_checked"] = stats.get("extint_users_checked", 0) + 1
                 key = "extint_users_checked:" + str(lastrec.get("mname", "?"))
                 stats[key] = stats.get(key, 0) + 1
-            if res > TOL * fro(Wk[k]) * fro(Hek):
+            # judged relative to the interferer's own strength; the directions free of interference are only determined to
+            # eps * |R| / gap (gap = pe * smallest non-zero singular value^2 of He_k over the noise level): conditioning-aware
+            # tolerance computed from the channel and the emitted pe / noise alone
+            tol = TOL
+            if pe and chnv is not None:
+                sv = np.linalg.svd(Hek, compute_uv=False)
+                sv = sv[sv > 1e-12 * sv[0]]
+                tol = max(TOL, 50 * np.finfo(float).eps * (pe * sv[0] ** 2 + chnv) / (pe * sv[-1] ** 2))
+            if res > tol * fro(Wk[k]) * fro(Hek):
                 bad.append(f"ExtIntRemovedWhenEnoughStreamsSacrificed: user {k} keeps {ns[k]} of {N} streams (ext. int. rank {rE}) "
                            f"but |W_k He_k| = {res:.3e}")
     return bad
@@ -602,6 +610,18 @@ class Driver:
             if do_probe and not bad:
                 bad += [(None, f"after {out} set_ext_int_handling_metric({a['name']}, {sorted(d)}): {b}") for b in self.probe(e["probe"])]
             return bad
+        if op == "Bystander":
+            # another live EnhancedBD object (kept alive) with other attribute values is configured with the emitted metric
+            cb = dict(c, p=c["p"] * 2.0 + 0.5, nv=c["nv"] + 0.5, pe=c["pe"] + 2.0)
+            b = make_object(cb)
+            m, d = metric_call_args(a["name"], a["args"], variant=self.rs.randint(0, 2))
+            b.set_ext_int_handling_metric(m, d)
+            self.bys = getattr(self, "bys", [])[-3:] + [b]
+            if self.public_state(o) != before:
+                bad.append((None, f"OtherObjectsDoNotMatter: configuring another EnhancedBD object changed this one from {before} to {self.public_state(o)}"))
+            bad += [(None, f"OtherObjectsDoNotMatter: after another live EnhancedBD object was configured with {a['name']} {sorted(d)}: {b_}")
+                    for b_ in self.probe(e["probe"])]
+            return bad
         if op == "EditDict":
             n_other = post["metric"]["ns"] % 2 + 1
             self.dict["num_streams"] = n_other
@@ -614,7 +634,8 @@ class Driver:
             self.M = unit * 10.0 ** a.get("sc", 0)
             self.redraws += rd
             self.dims = (K, N, rE)
-            self.ch_nv = c["nv"] * 10.0 ** (2 * a.get("sc", 0))   # the channel object's noise scales with the channel
+            # the channel object's noise scales with the channel; it stays positive when the object's noise_var is 0
+            self.ch_nv = (c["nv"] if c["nv"] > 0 else 1e-4) * 10.0 ** (2 * a.get("sc", 0))
             self.nte = a.get("nte", [rE])
             self.ch = make_mu_channel(self.M, K, N, rE, self.ch_nv, variant=self.rs.randint(0, 2), nte=self.nte) if rE else None
             return bad
@@ -654,7 +675,7 @@ class Driver:
             except Exception as ex:
                 return [(None, f"block_diagonalize_no_waterfilling(mu_channel) raised {type(ex).__name__}: {ex}")]
             self.res, self.res_M, self.res_cfg = ("ext", Ms, Wk, Ns), self.M, cc
-            bad += [(None, b) for b in eval_ext(req, self.M, K, N, rE, cc["p"], post["last"], Ms, Wk, Ns, stats=self.stats)]
+            bad += [(None, b) for b in eval_ext(req, self.M, K, N, rE, cc["p"], post["last"], Ms, Wk, Ns, stats=self.stats, pe=cc["pe"], chnv=self.ch_nv)]
             if "InputsUntouched" in req:
                 bad += [(None, b) for b in self.channel_untouched()]
             bad += [(None, b) for b in self.earlier_results_unchanged()]
@@ -805,7 +826,7 @@ def instances(tier):
     """(label, model arguments, replay mode)"""
     thorough = tier == "thorough"
     sweep_kw = dict(sweep=True, scales=[-7, 0, 7])
-    pel = ["zero", "tiny", "lo", "hi", "huge"] if thorough else ["zero", "huge"]
+    pel = ["zero", "micro", "tiny", "lo", "hi", "huge"] if thorough else ["zero", "micro", "huge"]
     sns = [1, 2, 3] if thorough else [1, 2]
     mods = ["PSK4", "QAM16"] if thorough else ["PSK4"]
     plab = ["lo", "hi", "mid"] if thorough else ["lo", "hi"]
@@ -815,11 +836,11 @@ def instances(tier):
     res.append(("sweep", (["BD", "WBD", "EBD"], [2, 3, 4] if thorough else [2, 3], [1, 2, 3, 4] if thorough else [1, 2, 3], [1, 2, 3] if thorough else [1, 2], plab, ["lo", "hi"], pel, sns, mods, [120]), sweep_kw, {"max_len": 8}))
     # call histories
     if thorough:
-        res.append(("history:BD", (["BD"], [3], [1, 2, 3], [1], ["lo", "hi", "mid"], ["lo", "hi"], ["zero"], [1], ["PSK4"], [120]), {"scales": [-7, 0, 7]}, {"walks": 300, "walk_len": 12}))
-        res.append(("history:WBD", (["WBD"], [2], [1, 2, 3], [1, 2], ["lo", "hi"], ["lo", "hi"], ["zero", "hi"], [1], ["PSK4"], [120]), {"scales": [7]}, {"walks": 300, "walk_len": 12}))
-        res.append(("history:EBD:attrs", (["EBD"], [3], [2, 3], [1], ["lo", "hi"], ["lo", "hi"], ["zero", "hi"], [1, 2], ["PSK4"], [120]), {"scales": [-7], "acts": ALL_ACTS - {"CalcFilterUserK"}},
+        res.append(("history:BD", (["BD"], [3], [1, 2, 3], [1], ["lo", "hi", "mid"], ["lo", "hi", "zero"], ["zero"], [1], ["PSK4"], [120]), {"scales": [-7, 0, 7]}, {"walks": 300, "walk_len": 12}))
+        res.append(("history:WBD", (["WBD"], [2], [1, 2, 3], [1, 2], ["lo", "hi"], ["lo", "zero"], ["zero", "hi"], [1], ["PSK4"], [120]), {"scales": [7]}, {"walks": 300, "walk_len": 12}))
+        res.append(("history:EBD:attrs", (["EBD"], [3], [2, 3], [1], ["lo", "hi"], ["lo", "zero"], ["zero", "hi"], [1, 2], ["PSK4"], [120]), {"scales": [-7], "acts": ALL_ACTS - {"CalcFilterUserK", "Bystander"}},
                     {"walks": 800, "walk_len": 14, "max_len": 14}))
-        res.append(("history:EBD:K2", (["EBD"], [2], [2, 3], [1, 2], ["hi"], ["lo"], ["hi"], [1, 2, 3], ["PSK4", "QAM16"], [120]),
+        res.append(("history:EBD:K2", (["EBD"], [2], [2, 3], [1, 2], ["hi"], ["lo"], ["micro"], [1, 2, 3], ["PSK4", "QAM16"], [120]),
                     {"extras": True, "scales": [7], "acts": ALL_ACTS - {"CalcFilterUserK"}}, {"walks": 1500, "walk_len": 14, "max_len": 14}))
         res.append(("history:EBD:K3", (["EBD"], [3], [1, 2], [1, 2], ["lo"], ["hi"], ["tiny"], [1, 2], ["PSK4"], [60, 120]),
                     {"extras": True, "scales": [-7]}, {"walks": 1500, "walk_len": 14, "max_len": 14}))
@@ -828,12 +849,12 @@ def instances(tier):
         res.append(("history:EBD:K4pe0", (["EBD"], [4], [2, 3], [1], ["mid"], ["mid"], ["zero"], [1, 2], ["PSK4"], [120]),
                     {"scales": [7]}, {"walks": 800, "walk_len": 14, "max_len": 14}))
     else:
-        res.append(("history:BD", (["BD"], [4], [2, 3], [1], ["lo", "hi"], ["lo", "hi"], ["zero"], [1], ["PSK4"], [120]), {"scales": [-7, 0, 7]}, {"walks": 20, "walk_len": 10}))
-        res.append(("history:WBD", (["WBD"], [2], [2, 3], [1], ["lo", "hi"], ["lo"], ["zero", "hi"], [1], ["PSK4"], [120]), {"scales": [0, 7]}, {"walks": 20, "walk_len": 10}))
+        res.append(("history:BD", (["BD"], [4], [2, 3], [1], ["lo", "hi"], ["hi", "zero"], ["zero"], [1], ["PSK4"], [120]), {"scales": [-7, 0, 7]}, {"walks": 20, "walk_len": 10}))
+        res.append(("history:WBD", (["WBD"], [2], [2, 3], [1], ["lo", "hi"], ["lo", "zero"], ["hi"], [1], ["PSK4"], [120]), {"scales": [0, 7]}, {"walks": 20, "walk_len": 10}))
         res.append(("history:EBD:attrs", (["EBD"], [2], [2], [1], ["lo", "hi"], ["lo"], ["zero", "hi"], [1], ["PSK4"], [120]),
-                    {"scales": [-7], "acts": ALL_ACTS - {"EditDict", "Scribble", "CalcReceiveFilter", "CalcFilterUserK"}},
+                    {"scales": [-7], "acts": ALL_ACTS - {"EditDict", "Scribble", "CalcReceiveFilter", "CalcFilterUserK", "Bystander"}},
                     {"walks": 40, "walk_len": 12, "max_len": 12}))
-        res.append(("history:EBD:K2", (["EBD"], [2], [2, 3], [1], ["hi"], ["lo"], ["huge"], [1, 2], ["PSK4"], [120]), {"extras": True, "acts": ALL_ACTS - {"CalcFilterUserK"}},
+        res.append(("history:EBD:K2", (["EBD"], [2], [2, 3], [1], ["hi"], ["zero"], ["huge"], [1, 2], ["PSK4"], [120]), {"extras": True, "acts": ALL_ACTS - {"CalcFilterUserK"}},
                     {"walks": 60, "walk_len": 12, "max_len": 12}))
     return res
 
@@ -871,7 +892,7 @@ def run(ctx):
         nedges[inst[0]] = explore(ctx, inst[0], r, inst[3], ctx.seed * 131 + n)
         ctx.notes.setdefault("replay_wall_s", {})[inst[0]] = round(time.time() - t0, 1)
     ctx.notes["edges_per_instance"] = nedges
-    ctx.require_actions(["Construct", "SetAttr", "SetMetric", "SetMetricRejected", "EditDict", "NewChannel", "SolveBD", "SolveExt",
+    ctx.require_actions(["Construct", "Bystander", "SetAttr", "SetMetric", "SetMetricRejected", "EditDict", "NewChannel", "SolveBD", "SolveExt",
                          "CalcWhitening", "CalcReceiveFilter", "CalcFilterUserK", "Scribble"])
     num = ctx.notes.get("numerics", {})
     if not ctx.violations and not ctx.known_hits:
